@@ -84,14 +84,17 @@ func (f *GenericFeature) MergeFrom(other Feature) {
 }
 
 func (f *GenericFeature) MarshalYAML() (interface{}, error) {
-	y := map[string]interface{}{
-		"id": f.ID,
+	// Tags are written even if there are none, since it's their presence
+	// that marks this as a feature, rather than as a list of modified tags,
+	// when the YAML is ingested.
+	tags := f.Tags
+	if tags == nil {
+		tags = b6.Tags{}
 	}
-
-	if len(f.Tags) > 0 {
-		y["tags"] = f.Tags
-	}
-	return y, nil
+	return map[string]interface{}{
+		"id":   f.ID,
+		"tags": tags,
+	}, nil
 }
 
 type OSMFeature struct {
